@@ -64,14 +64,38 @@ def extract(ctx, fabric, regime, perm, N=2, inputs=None):
     """Interpret pydrex.core.derivatives on symbolic inputs. Returns (interp, inputs, (dA, df))."""
     inp = inputs or Inputs(N)
 
+    # reference activities |I_s| / tau_s per grain, used to recognise WHICH slip systems a sort is applied to
+    ref_keys = {}
+    for g in range(inp.N):
+        for s, (lr, nr) in enumerate(REF_SYSTEMS):
+            v = ZERO
+            for i in range(3):
+                for j in range(3):
+                    v = v + inp.D[i, j] * inp.A[g, lr, i] * inp.A[g, nr, j]
+            tau = REF_CRSS[fabric][s]
+            ref_keys[(g, s)] = ZERO if isinstance(tau, Inf) else Abs(alg.let(v)) / tau
+
     def chooser(keys):
-        # sanity: cells that are exactly zero must be at the front of the chosen permutation
-        zeros = [i for i, k in enumerate(keys) if lift(k).is_zero()]
         if perm is None:
             raise AnalysisError("argsort of symbolic data met but no ordering was supplied")
-        if sorted(perm[: len(zeros)]) != sorted(zeros):
-            raise AnalysisError(f"ordering {perm} inconsistent with statically zero activities {zeros}")
-        return perm
+        keys = [lift(k) for k in keys]
+        if len(keys) == len(perm):
+            zeros = [i for i, k in enumerate(keys) if k.is_zero()]
+            if sorted(perm[: len(zeros)]) != sorted(zeros):
+                raise AnalysisError(f"ordering {perm} inconsistent with statically zero activities {zeros}")
+            return perm
+        # a sort over a sub-vector: identify the slip system of each key and order them as the assumed activity ranking does
+        rank = {s: r for r, s in enumerate(perm)}
+        systems = []
+        for k in keys:
+            hit = [s for (g, s), rk in ref_keys.items() if rk == k and (not k.is_zero())]
+            if k.is_zero():
+                hit = [s for s in range(4) if isinstance(REF_CRSS[fabric][s], Inf) and s not in systems]
+            if not hit:
+                raise AnalysisError("argsort over values that are not slip-system activities")
+            systems.append(hit[0])
+        order = sorted(range(len(keys)), key=lambda i: rank[systems[i]])
+        return tuple(order)
 
     I = Interp(ctx.program, perm_chooser=chooser)
     f = public(ctx, I, "pydrex.core.derivatives")
